@@ -10,6 +10,11 @@ open Text Slice
 
 namespace Sites
 
+def jsrPrefix : Text := "jsr:".toList
+def npmPrefix : Text := "npm:".toList
+def requireKw : Text := "require".toList
+def latestTag : Text := "latest".toList
+
 /-- the `@scope/name@version` splitting shared by `parse_jsr_specifier` (deno_json.rs) and the scoped
     branch of `parse_npm_alias` (package_json.rs), on the text after the prefix.
     outer `none` = panic; inner `none` = the function returns `None` -/
@@ -21,25 +26,27 @@ def scopedSplit (rest : Text) : Option (Option (Text × Text)) :=
     | none => none
     | some after =>
       match findChar? (· == '@') after with
-      | none => some (some (rest, "latest".toList))
+      | none => some (some (rest, latestTag))
       | some ap =>
         match sliceTo rest (sp + 1 + ap), sliceFrom after (ap + 1) with   -- &rest[..slash_pos + 1 + at_pos], &after_slash[at_pos + 1..]
         | some name, some ver => some (some (name, ver))
         | _, _ => none
 
 def jsrSpecifier (value : Text) : Option (Option (Text × Text)) :=
-  match stripPrefix "jsr:".toList value with
+  match stripPrefix jsrPrefix value with
   | none => some none
-  | some rest => scopedSplit rest
+  | some rest =>
+    -- `version.split('/').next()`: a sub-path after the version is not part of it
+    (scopedSplit rest).map fun r => r.map fun (n, v) => (n, v.takeWhile (· != '/'))
 
 def npmAlias (value : Text) : Option (Option (Text × Text)) :=
-  match stripPrefix "npm:".toList value with
+  match stripPrefix npmPrefix value with
   | none => some none
   | some rest =>
     if startsWith rest ['@'] then scopedSplit rest
     else
       match findChar? (· == '@') rest with
-      | none => some (some (rest, "latest".toList))
+      | none => some (some (rest, latestTag))
       | some ap =>
         match sliceTo rest ap, sliceFrom rest (ap + 1) with            -- &rest[..at_pos], &rest[at_pos + 1..]
         | some name, some ver => some (some (name, ver))
@@ -95,7 +102,7 @@ def pseudoTail (ts : Text) : Option (Option Text) :=
 
 /-- go_mod.rs: `line[require_pos..]` with `require_pos = line.find("require").unwrap_or(0)` -/
 def requireTail (line : Text) : Option Text :=
-  sliceFrom line ((find? "require".toList line).getD 0)
+  sliceFrom line ((find? requireKw line).getD 0)
 
 /-- every byte offset at which `pat` occurs (a superset of Rust's non-overlapping `match_indices`) -/
 def occurrences (pat : Text) : Text → Nat → List Nat
